@@ -26,6 +26,9 @@
 (*  data     : "absent" | "D"                       data/card.csv          *)
 (*  gitignore: "absent" | "G" | "starter"                                  *)
 (*  report   : "absent" | "old" | "new"   output/spending_summary.html     *)
+(* The budget may sit in either folder layout (./config, or ./tally/config *)
+(* with the commands run from the project folder): nothing below depends   *)
+(* on it, and the replay materialises both.                                *)
 (***************************************************************************)
 EXTENDS Naturals, Sequences, FiniteSets, TLC
 
